@@ -10,6 +10,7 @@ import (
 type genParams struct {
 	MaxNodes, MaxDepth, MaxRoots, NChunks int
 	MinNodes                              int  // lower bound of the node budget (0: 1)
+	Chain                                 int  // > 0: the forest starts with a chain of only children this deep (+ up to 24 more levels)
 	Hostile                               bool // names may contain '/', '.', leading blanks, bullets
 }
 
@@ -92,6 +93,18 @@ func randForest(rng *rand.Rand, p genParams) []*rtree {
 		all = append(all, t)
 		depth[t] = 1
 		budget--
+	}
+	if p.Chain > 0 {
+		// a chain of only children, far deeper than any word size; siblings are sprinkled on it afterwards
+		cur := roots[0]
+		for d := 2; d <= p.Chain+rng.Intn(25) && budget > 0; d++ {
+			t := &rtree{name: pick()}
+			cur.kids = append(cur.kids, t)
+			depth[t] = d
+			all = append(all, t)
+			cur = t
+			budget--
+		}
 	}
 	// one time in four: a WIDE node (9..16 children) whose later children repeat names first used late
 	// among its children, each repeat followed by a child of its own (merging must find the first one)
